@@ -1,6 +1,6 @@
 (* C15: proofs about the concrete witnesses of Model/WireWitness.v. *)
 From Coq Require Import ZArith List Bool String Permutation.
-From V Require Import Model.Wire Model.WireWitness Proofs.WireSort Proofs.WireJson Proofs.WireProofs.
+From V Require Import Model.Wire Model.WireWitness Proofs.WireSort Proofs.WireJson Proofs.WireProofs Proofs.WireFrameProofs.
 Import ListNotations.
 Open Scope Z_scope.
 
@@ -22,14 +22,50 @@ Proof.
   apply json_eqb_false_neq. vm_compute. reflexivity.
 Qed.
 
-Lemma frame_event_rewire_refuted :
-  exists st f f' e e' l,
-    store_ok_b st = true /\ frame_valid f = true /\ json_rt_frame f = Some f' /\
-    f_events f = Some [Some {| fe_core := Some e; fe_round := 0; fe_lamport := 0; fe_witness := false |}] /\
-    f_events f' = Some [Some {| fe_core := Some e'; fe_round := 0; fe_lamport := 0; fe_witness := false |}] /\
-    read_wire st (to_wire e) = inr l /\ same_event_hash l e = true /\
-    read_wire st (to_wire e') = inl ECreator.
+(* regression witness for fix 5bf08c3: the same arrived event, inserted by the pre-fix and by the
+   fixed InsertFrameEvent on the same store *)
+Lemma frame_event_rewire_regression :
+  exists rs ds n h fe e e_old e_new l,
+    store_ok_b rs = true /\ event_valid e = true /\
+    read_wire rs (to_wire e) = inr l /\ same_event_hash l e = true /\
+    (* what a JSON hop delivers, inserted by the pre-fix function: unreadable *)
+    insert_frame_event_prefix ds n h fe (arrived e) = Some (store_add ds h 11 e_old, n, e_old) /\
+    read_wire rs (to_wire e_old) = inl ECreator /\
+    (* the same, inserted by the fixed function (other-parent in D's store): same hash *)
+    insert_frame_event ds n h fe (arrived e) = Some (store_add ds h 11 e_new, n + 1, e_new) /\
+    (exists l', read_wire rs (to_wire e_new) = inr l' /\ same_event_hash l' e = true).
 Proof.
-  exists st0, frame1, (n_frame false frame1), ev1w, (event_clear ev1w), (or_else (read_wire st0 (to_wire ev1w)) ev1w).
-  repeat split; vm_compute; reflexivity.
+  exists st0, (store_add ds0 hB0 22 (arrived evB0)), 1, hA1, fe0, ev1w.
+  exists (third (insert_frame_event_prefix (store_add ds0 hB0 22 (arrived evB0)) 1 hA1 fe0 (arrived ev1w)) ev1w).
+  exists (third (insert_frame_event (store_add ds0 hB0 22 (arrived evB0)) 1 hA1 fe0 (arrived ev1w)) ev1w).
+  exists (or_else (read_wire st0 (to_wire ev1w)) ev1w).
+  repeat split; try (vm_compute; reflexivity).
+  eexists. split; vm_compute; reflexivity.
 Qed.
+
+(* the whole frame in order: both events named, consecutive topological indexes; the event alone:
+   residual flag false and the reader builds an event without the other-parent *)
+Lemma frame_insert_example :
+  match insert_frame_events ds0 0 frame_list2 with
+  | Some (_, n, [(b, fb); (a, fa)]) =>
+    n = 2 /\ fb = true /\ fa = true /\ e_topo b = 0 /\ e_topo a = 1 /\
+    (b_cid (e_body a), b_opcid (e_body a), b_spi (e_body a), b_opi (e_body a)) = (11, 22, 0, 0) /\
+    match read_wire st0 (to_wire a) with inr a' => same_event_hash a' ev1w = true | inl _ => False end
+  | _ => False
+  end /\
+  match insert_frame_events ds0 0 frame_list1 with
+  | Some (_, _, [(a, fa)]) =>
+    fa = false /\
+    match read_wire st0 (to_wire a) with
+    | inr a' => b_parents (e_body a') = Some [hA0; []] /\ same_event_hash a' ev1w = false
+    | inl _ => False
+    end
+  | _ => False
+  end.
+Proof. vm_compute. repeat split. Qed.
+
+(* validated text: a frame that passes, one that does not *)
+Lemma text_validation_example :
+  frame_text_ok frame1 = true /\ frame_digest frame1 <> None /\
+  frame_text_ok frame_fffd = false /\ itx_text_ok itx_bad = false.
+Proof. vm_compute. repeat split; discriminate. Qed.
